@@ -49,6 +49,13 @@ func GoValue(v gq.Value) interface{} {
 	return nil
 }
 
+// builtScalar is a scalar as an application defines one in Go: ggql.Scalar embedded, values taken and given as they are
+// (a bare ggql.Scalar is neither an input nor an output type).
+type builtScalar struct{ ggql.Scalar }
+
+func (s *builtScalar) CoerceIn(v interface{}) (interface{}, error)  { return v, nil }
+func (s *builtScalar) CoerceOut(v interface{}) (interface{}, error) { return v, nil }
+
 func ref(n string) ggql.Type { return &ggql.Ref{Base: ggql.Base{N: n}} }
 
 func goType(t *gq.TRef) ggql.Type {
@@ -192,7 +199,7 @@ func Build(root *ggql.Root, defs []Def) (types []ggql.Type, err error) {
 			}
 			types = append(types, t)
 		case "SCALAR":
-			types = append(types, &ggql.Scalar{Base: base})
+			types = append(types, &builtScalar{ggql.Scalar{Base: base}})
 		case "DIRECTIVE":
 			t := &ggql.Directive{Base: base}
 			for _, l := range d.Locs {
